@@ -444,6 +444,14 @@ func (p *Path) global(fr *frame, g *ssa.Global) *Value {
 	if v, ok := p.globals[g]; ok {
 		return v
 	}
+	if p.P.cfg.GroupOrder != "" && g.Name() == "Order" && g.Pkg != nil && g.Pkg.Pkg.Path() == bn256Pkg {
+		// bound group order (see intrinsics_bn256.go)
+		var bigCell Value = BigVal{p.groupOrder()}
+		cell := new(Value)
+		*cell = &bigCell
+		p.globals[g] = cell
+		return cell
+	}
 	p.ensureInit(fr, g.Pkg)
 	if v, ok := p.globals[g]; ok {
 		return v
